@@ -5,6 +5,9 @@ HERE = os.path.dirname(os.path.abspath(__file__))
 # id -> (built?, level, technique, level text, level note, design ref)
 RACE = "Go race detector (-race build, GORACE log parsed, reports de-duplicated)"
 T = {
+ "C12": (True, "fault_enumeration", "fault-placement enumeration around Submit with scripted upload sources / RoundTripper / raw TCP fault server / hook-driven cancellation; monitors = close counters, unread-byte counters, goroutine census, watchdog-ordered termination; -race build",
+         "Enumerates fault placements (pre-send errors, read error at every byte offset of upload sources, transport errors before/mid/after the request body, a raw loopback server closing/resetting/stalling at every byte of a Content-Length and a chunked response under four deadline sources, cancellation at each hook point, every short Read-size sequence on the connection-reuse wrapper) crossed with payload kinds and connection reuse, and checks per placement: Submit returned while the fault was held, returned an error unless the complete response was obtained, every upload source and the response body were closed (drained when required), no goroutine with client frames remains. The enumeration is complete for the listed dimensions at the stated sizes, not for all lengths/timings.",
+         "trusts the scripted collaborators, runtime.Stack for the census, and treats 200x the effective deadline without return as non-termination; a complete response lost to the (short) deadline on a loaded machine is counted inconclusive, never a violation", "DESIGN.md §4 C12"),
  "C09": (True, "exploration", "Go race detector + correlation-token isolation monitor under a PRNG hook scheduler (concurrent runs), and an online history checker (reference state machine) over accessor sequences",
          "Concurrent runs of 8..64 goroutines against one handler instance under -race, GOMAXPROCS 1/2/4/16 and a hook callback that perturbs the schedule at the inter-stage suspension points: every value visible in the pipeline and in the response must carry the token of its own request, and the race log must be empty; plus thousands of accessor sequences judged against a memoisation state machine via authenticator/consumer/lookup counters. Shows absence of violations on the interleavings actually produced (count in evidence), nothing more.",
          "trusts the Go race detector (reports only races on executed accesses), the token discipline of the harness collaborators, and the verif hook points (DESIGN Appendix A)", "DESIGN.md §4 C09"),
